@@ -11,7 +11,8 @@ def run(p):
         if b: env['SEED_BASE'] = b
     r = subprocess.run(['/venv/bin/python', os.path.join(VERIF, 'tools', 'eval_patch.py'), p], capture_output=True, text=True, env=env)
     m = re.findall(r'^FIRED: (.*)$', r.stdout, re.M)
-    return p, (m[0] if m else 'ERROR ' + r.stdout[-200:])
+    u = re.findall(r'^UNDECIDED: (.*)$', r.stdout, re.M)
+    return p, (m[0] if m else 'ERROR ' + r.stdout[-200:]) + ('' if not u or u[0] == '(none)' else '  [undecided: ' + u[0] + ']')
 pats = sorted(glob.glob(os.path.join(VERIF, 'seeded', '*', 'patch.diff'))) + sorted(glob.glob(os.path.join(VERIF, 'neutral', '*', 'patch.diff'))) + sys.argv[1:]
 bad = 0
 with ThreadPoolExecutor(4) as ex:
@@ -19,7 +20,11 @@ with ThreadPoolExecutor(4) as ex:
         d = os.path.basename(os.path.dirname(p))
         kind = 'neutral' if '/neutral/' in p else 'seeded'
         prop = d.split('-')[0]
-        ok = (fired == '(none)') if kind == 'neutral' else (prop in fired.split())
+        ok = (fired == '(none)') if kind == 'neutral' else (prop in fired.split('[')[0].split())
+        mp = os.path.join(os.path.dirname(p), 'meta.json')
+        if kind == 'seeded' and not ok and os.path.exists(mp) and json.load(open(mp)).get('expected_uncaught'):
+            ok = True
+            fired += '  (documented miss)'
         bad += 0 if ok else 1
         print(f'{kind:8s} {d:12s} fired: {fired}  {"ok" if ok else "<<<<<< UNEXPECTED"}')
 sys.exit(1 if bad else 0)
